@@ -194,6 +194,15 @@ let rec firstn n0 l =
              | [] -> []
              | a :: l0 -> a :: (firstn n1 l0))
 
+(** val skipn : nat -> 'a1 list -> 'a1 list **)
+
+let rec skipn n0 l =
+  match n0 with
+  | O -> l
+  | S n1 -> (match l with
+             | [] -> []
+             | _ :: l0 -> skipn n1 l0)
+
 (** val nodup : ('a1 -> 'a1 -> bool) -> 'a1 list -> 'a1 list **)
 
 let rec nodup decA = function
@@ -205,6 +214,12 @@ let rec nodup decA = function
 let rec seq start = function
 | O -> []
 | S len0 -> start :: (seq (S start) len0)
+
+(** val repeat : 'a1 -> nat -> 'a1 list **)
+
+let rec repeat x = function
+| O -> []
+| S k -> x :: (repeat x k)
 
 type positive =
 | XI of positive
@@ -1426,6 +1441,24 @@ let enc_result e = function
   (Zpos XH) :: ((jperr_code c0) :: (enc_opt (fun z0 -> z0 :: []) o))
 | Crash x -> (Zpos (XO XH)) :: ((pyexn_code x) :: [])
 | OutOfFuel -> (Zpos (XI XH)) :: []
+
+(** val dec_key : key dec **)
+
+let dec_key = function
+| [] -> None
+| z0 :: r0 ->
+  (match z0 with
+   | Z0 ->
+     (match dec_str r0 with
+      | Some p -> let (s, r') = p in Some ((KName s), r')
+      | None -> None)
+   | Zpos p ->
+     (match p with
+      | XH -> (match r0 with
+               | [] -> None
+               | i :: r1 -> Some ((KIdx i), r1))
+      | _ -> None)
+   | Zneg _ -> None)
 
 (** val bad_request : z list **)
 
@@ -6360,6 +6393,656 @@ let rec since_last_lf prefix acc =
 let col_of text off =
   since_last_lf (firstn off text) Z0
 
+(** val hex_digit_lower : z -> n **)
+
+let hex_digit_lower d =
+  if Z.ltb d (Zpos (XO (XI (XO XH))))
+  then Z.to_N (Z.add (Zpos (XO (XO (XO (XO (XI XH)))))) d)
+  else Z.to_N (Z.add (Zpos (XI (XI (XI (XO (XI (XO XH))))))) d)
+
+(** val dumps_char : n -> str **)
+
+let dumps_char c0 =
+  if N.eqb c0 (Npos (XO (XO (XI (XI (XI (XO XH)))))))
+  then (Npos (XO (XO (XI (XI (XI (XO XH))))))) :: ((Npos (XO (XO (XI (XI (XI
+         (XO XH))))))) :: [])
+  else if N.eqb c0 (Npos (XO (XI (XO (XO (XO XH))))))
+       then (Npos (XO (XO (XI (XI (XI (XO XH))))))) :: ((Npos (XO (XI (XO (XO
+              (XO XH)))))) :: [])
+       else if N.eqb c0 (Npos (XO (XO (XO XH))))
+            then (Npos (XO (XO (XI (XI (XI (XO XH))))))) :: ((Npos (XO (XI
+                   (XO (XO (XO (XI XH))))))) :: [])
+            else if N.eqb c0 (Npos (XO (XO (XI XH))))
+                 then (Npos (XO (XO (XI (XI (XI (XO XH))))))) :: ((Npos (XO
+                        (XI (XI (XO (XO (XI XH))))))) :: [])
+                 else if N.eqb c0 (Npos (XO (XI (XO XH))))
+                      then (Npos (XO (XO (XI (XI (XI (XO XH))))))) :: ((Npos
+                             (XO (XI (XI (XI (XO (XI XH))))))) :: [])
+                      else if N.eqb c0 (Npos (XI (XO (XI XH))))
+                           then (Npos (XO (XO (XI (XI (XI (XO
+                                  XH))))))) :: ((Npos (XO (XI (XO (XO (XI (XI
+                                  XH))))))) :: [])
+                           else if N.eqb c0 (Npos (XI (XO (XO XH))))
+                                then (Npos (XO (XO (XI (XI (XI (XO
+                                       XH))))))) :: ((Npos (XO (XO (XI (XO
+                                       (XI (XI XH))))))) :: [])
+                                else if N.ltb c0 (Npos (XO (XO (XO (XO (XO
+                                          XH))))))
+                                     then (Npos (XO (XO (XI (XI (XI (XO
+                                            XH))))))) :: ((Npos (XI (XO (XI
+                                            (XO (XI (XI XH))))))) :: ((Npos
+                                            (XO (XO (XO (XO (XI
+                                            XH)))))) :: ((Npos (XO (XO (XO
+                                            (XO (XI
+                                            XH)))))) :: ((hex_digit_lower
+                                                           (Z.div (Z.of_N c0)
+                                                             (Zpos (XO (XO
+                                                             (XO (XO XH))))))) :: (
+                                            (hex_digit_lower
+                                              (Z.modulo (Z.of_N c0) (Zpos (XO
+                                                (XO (XO (XO XH))))))) :: [])))))
+                                     else c0 :: []
+
+(** val dumps_body : str -> str **)
+
+let dumps_body s =
+  flat_map dumps_char s
+
+(** val replace_bq : str -> str **)
+
+let rec replace_bq = function
+| [] -> []
+| c0 :: r0 ->
+  (match r0 with
+   | [] -> c0 :: []
+   | d :: r' ->
+     if (&&) (N.eqb c0 (Npos (XO (XO (XI (XI (XI (XO XH))))))))
+          (N.eqb d (Npos (XO (XI (XO (XO (XO XH)))))))
+     then (Npos (XO (XI (XO (XO (XO XH)))))) :: (replace_bq r')
+     else c0 :: (replace_bq r0))
+
+(** val replace_sq : str -> str **)
+
+let replace_sq s =
+  flat_map (fun c0 ->
+    if N.eqb c0 (Npos (XI (XI (XI (XO (XO XH))))))
+    then (Npos (XO (XO (XI (XI (XI (XO XH))))))) :: ((Npos (XI (XI (XI (XO
+           (XO XH)))))) :: [])
+    else c0 :: []) s
+
+(** val m_canonical_string : str -> str **)
+
+let m_canonical_string s =
+  (Npos (XI (XI (XI (XO (XO
+    XH)))))) :: (app (replace_sq (replace_bq (dumps_body s))) ((Npos (XI (XI
+                  (XI (XO (XO XH)))))) :: []))
+
+(** val digits_of_pos : nat -> z -> str -> str **)
+
+let rec digits_of_pos fuel n0 acc =
+  match fuel with
+  | O -> acc
+  | S f ->
+    if Z.ltb n0 (Zpos (XO (XI (XO XH))))
+    then (Z.to_N (Z.add (Zpos (XO (XO (XO (XO (XI XH)))))) n0)) :: acc
+    else digits_of_pos f (Z.div n0 (Zpos (XO (XI (XO XH)))))
+           ((Z.to_N
+              (Z.add (Zpos (XO (XO (XO (XO (XI XH))))))
+                (Z.modulo n0 (Zpos (XO (XI (XO XH))))))) :: acc)
+
+(** val repr_nat : z -> str **)
+
+let repr_nat n0 =
+  digits_of_pos (S (Z.to_nat (Z.log2 n0))) n0 []
+
+(** val repr_int : z -> str **)
+
+let repr_int z0 =
+  if Z.ltb z0 Z0
+  then (Npos (XI (XO (XI (XI (XO XH)))))) :: (repr_nat (Z.opp z0))
+  else repr_nat z0
+
+(** val lt_ratio : z -> z -> z -> z -> bool **)
+
+let lt_ratio n1 d1 n2 d2 =
+  Z.ltb (Z.mul n1 d2) (Z.mul n2 d1)
+
+(** val pow10 : z -> z * z **)
+
+let pow10 k =
+  if Z.leb Z0 k
+  then ((Z.pow (Zpos (XO (XI (XO XH)))) k), (Zpos XH))
+  else ((Zpos XH), (Z.pow (Zpos (XO (XI (XO XH)))) (Z.opp k)))
+
+(** val floor_log10 : z -> z -> z **)
+
+let floor_log10 num0 den =
+  let est =
+    Z.div
+      (Z.mul (Z.sub (Z.log2 num0) (Z.log2 den)) (Zpos (XI (XI (XI (XO (XI (XO
+        (XO (XI (XI (XO (XI (XO (XI (XI XH)))))))))))))))) (Zpos (XO (XO (XO
+      (XO (XO (XI (XO (XI (XO (XI (XI (XO (XO (XO (XO (XI XH)))))))))))))))))
+  in
+  let fix_down = fun e ->
+    let (pn, pd) = pow10 e in
+    if lt_ratio num0 den pn pd then Z.sub e (Zpos XH) else e
+  in
+  let fix_up = fun e ->
+    let (pn, pd) = pow10 (Z.add e (Zpos XH)) in
+    if lt_ratio num0 den pn pd then e else Z.add e (Zpos XH)
+  in
+  fix_up (fix_up (fix_down (fix_down (Z.add est (Zpos XH)))))
+
+(** val round_sig : z -> z -> z -> z * z **)
+
+let round_sig num0 den n0 =
+  let e10 = floor_log10 num0 den in
+  let k = Z.sub e10 (Z.sub n0 (Zpos XH)) in
+  if Z.leb Z0 k
+  then let sd = Z.mul den (Z.pow (Zpos (XO (XI (XO XH)))) k) in
+       let q = Z.div num0 sd in
+       let r0 = Z.modulo num0 sd in
+       let q' =
+         if Z.ltb sd (Z.mul (Zpos (XO XH)) r0)
+         then Z.add q (Zpos XH)
+         else if (&&) (Z.eqb sd (Z.mul (Zpos (XO XH)) r0)) (Z.odd q)
+              then Z.add q (Zpos XH)
+              else q
+       in
+       if Z.eqb q' (Z.pow (Zpos (XO (XI (XO XH)))) n0)
+       then ((Z.pow (Zpos (XO (XI (XO XH)))) (Z.sub n0 (Zpos XH))),
+              (Z.add k (Zpos XH)))
+       else (q', k)
+  else let sn = Z.mul num0 (Z.pow (Zpos (XO (XI (XO XH)))) (Z.opp k)) in
+       let q = Z.div sn den in
+       let r0 = Z.modulo sn den in
+       let q' =
+         if Z.ltb den (Z.mul (Zpos (XO XH)) r0)
+         then Z.add q (Zpos XH)
+         else if (&&) (Z.eqb den (Z.mul (Zpos (XO XH)) r0)) (Z.odd q)
+              then Z.add q (Zpos XH)
+              else q
+       in
+       if Z.eqb q' (Z.pow (Zpos (XO (XI (XO XH)))) n0)
+       then ((Z.pow (Zpos (XO (XI (XO XH)))) (Z.sub n0 (Zpos XH))),
+              (Z.add k (Zpos XH)))
+       else (q', k)
+
+(** val shortest : nat -> z -> z -> z -> z -> z -> z * z **)
+
+let rec shortest fuel n0 m e num0 den =
+  match fuel with
+  | O -> round_sig num0 den (Zpos (XI (XO (XO (XO XH)))))
+  | S f ->
+    let (d, k) = round_sig num0 den n0 in
+    let back =
+      if Z.leb Z0 k
+      then round_ratio (Z.mul d (Z.pow (Zpos (XO (XI (XO XH)))) k)) (Zpos XH)
+      else round_ratio d (Z.pow (Zpos (XO (XI (XO XH)))) (Z.opp k))
+    in
+    (match back with
+     | Some p ->
+       let (m', e') = p in
+       if (&&) (Z.eqb m' m) (Z.eqb e' e)
+       then (d, k)
+       else shortest f (Z.add n0 (Zpos XH)) m e num0 den
+     | None -> shortest f (Z.add n0 (Zpos XH)) m e num0 den)
+
+(** val strip_zeros : nat -> z -> z -> z * z **)
+
+let rec strip_zeros fuel d k =
+  match fuel with
+  | O -> (d, k)
+  | S f ->
+    if (&&) (Z.eqb (Z.modulo d (Zpos (XO (XI (XO XH))))) Z0)
+         (negb (Z.eqb d Z0))
+    then strip_zeros f (Z.div d (Zpos (XO (XI (XO XH))))) (Z.add k (Zpos XH))
+    else (d, k)
+
+(** val zeros : z -> str **)
+
+let zeros n0 =
+  repeat (Npos (XO (XO (XO (XO (XI XH)))))) (Z.to_nat n0)
+
+(** val repr_pos_float : z -> z -> str **)
+
+let repr_pos_float m e =
+  if Z.leb Z0 e
+  then let num0 = Z.mul m (Z.pow (Zpos (XO XH)) e) in
+       let den = Zpos XH in
+       let (d0, k0) =
+         shortest (S (S (S (S (S (S (S (S (S (S (S (S (S (S (S (S (S
+           O))))))))))))))))) (Zpos XH) m e num0 den
+       in
+       let (d, k) =
+         strip_zeros (S (S (S (S (S (S (S (S (S (S (S (S (S (S (S (S (S (S (S
+           (S O)))))))))))))))))))) d0 k0
+       in
+       let ds = repr_nat d in
+       let nd = zlen ds in
+       let decpt = Z.add nd k in
+       if (&&) (Z.ltb (Zneg (XO (XO XH))) decpt)
+            (Z.leb decpt (Zpos (XO (XO (XO (XO XH))))))
+       then if Z.leb decpt Z0
+            then app ((Npos (XO (XO (XO (XO (XI XH)))))) :: ((Npos (XO (XI
+                   (XI (XI (XO XH)))))) :: [])) (app (zeros (Z.opp decpt)) ds)
+            else if Z.leb nd decpt
+                 then app ds
+                        (app (zeros (Z.sub decpt nd)) ((Npos (XO (XI (XI (XI
+                          (XO XH)))))) :: ((Npos (XO (XO (XO (XO (XI
+                          XH)))))) :: [])))
+                 else app (firstn (Z.to_nat decpt) ds)
+                        (app ((Npos (XO (XI (XI (XI (XO XH)))))) :: [])
+                          (skipn (Z.to_nat decpt) ds))
+       else let ex = Z.sub decpt (Zpos XH) in
+            let mant =
+              match ds with
+              | [] -> []
+              | d1 :: r0 ->
+                (match r0 with
+                 | [] -> d1 :: []
+                 | _ :: _ -> d1 :: ((Npos (XO (XI (XI (XI (XO XH)))))) :: r0))
+            in
+            let exs = repr_nat (Z.abs ex) in
+            app mant
+              (app ((Npos (XI (XO (XI (XO (XO (XI
+                XH))))))) :: ((if Z.ltb ex Z0
+                               then Npos (XI (XO (XI (XI (XO XH)))))
+                               else Npos (XI (XI (XO (XI (XO XH)))))) :: []))
+                (if Z.ltb (zlen exs) (Zpos (XO XH))
+                 then (Npos (XO (XO (XO (XO (XI XH)))))) :: exs
+                 else exs))
+  else let den = Z.pow (Zpos (XO XH)) (Z.opp e) in
+       let (d0, k0) =
+         shortest (S (S (S (S (S (S (S (S (S (S (S (S (S (S (S (S (S
+           O))))))))))))))))) (Zpos XH) m e m den
+       in
+       let (d, k) =
+         strip_zeros (S (S (S (S (S (S (S (S (S (S (S (S (S (S (S (S (S (S (S
+           (S O)))))))))))))))))))) d0 k0
+       in
+       let ds = repr_nat d in
+       let nd = zlen ds in
+       let decpt = Z.add nd k in
+       if (&&) (Z.ltb (Zneg (XO (XO XH))) decpt)
+            (Z.leb decpt (Zpos (XO (XO (XO (XO XH))))))
+       then if Z.leb decpt Z0
+            then app ((Npos (XO (XO (XO (XO (XI XH)))))) :: ((Npos (XO (XI
+                   (XI (XI (XO XH)))))) :: [])) (app (zeros (Z.opp decpt)) ds)
+            else if Z.leb nd decpt
+                 then app ds
+                        (app (zeros (Z.sub decpt nd)) ((Npos (XO (XI (XI (XI
+                          (XO XH)))))) :: ((Npos (XO (XO (XO (XO (XI
+                          XH)))))) :: [])))
+                 else app (firstn (Z.to_nat decpt) ds)
+                        (app ((Npos (XO (XI (XI (XI (XO XH)))))) :: [])
+                          (skipn (Z.to_nat decpt) ds))
+       else let ex = Z.sub decpt (Zpos XH) in
+            let mant =
+              match ds with
+              | [] -> []
+              | d1 :: r0 ->
+                (match r0 with
+                 | [] -> d1 :: []
+                 | _ :: _ -> d1 :: ((Npos (XO (XI (XI (XI (XO XH)))))) :: r0))
+            in
+            let exs = repr_nat (Z.abs ex) in
+            app mant
+              (app ((Npos (XI (XO (XI (XO (XO (XI
+                XH))))))) :: ((if Z.ltb ex Z0
+                               then Npos (XI (XO (XI (XI (XO XH)))))
+                               else Npos (XI (XI (XO (XI (XO XH)))))) :: []))
+                (if Z.ltb (zlen exs) (Zpos (XO XH))
+                 then (Npos (XO (XO (XO (XO (XI XH)))))) :: exs
+                 else exs))
+
+(** val repr_float : num -> str **)
+
+let repr_float = function
+| NInt z0 -> repr_int z0
+| NFlt (m, e) ->
+  (match m with
+   | Z0 ->
+     (Npos (XO (XO (XO (XO (XI XH)))))) :: ((Npos (XO (XI (XI (XI (XO
+       XH)))))) :: ((Npos (XO (XO (XO (XO (XI XH)))))) :: []))
+   | _ ->
+     if Z.ltb m Z0
+     then (Npos (XI (XO (XI (XI (XO XH)))))) :: (repr_pos_float (Z.opp m) e)
+     else repr_pos_float m e)
+| NNegZero ->
+  (Npos (XI (XO (XI (XI (XO XH)))))) :: ((Npos (XO (XO (XO (XO (XI
+    XH)))))) :: ((Npos (XO (XI (XI (XI (XO XH)))))) :: ((Npos (XO (XO (XO (XO
+    (XI XH)))))) :: [])))
+| NInf s ->
+  if s
+  then (Npos (XI (XO (XI (XI (XO XH)))))) :: ((Npos (XI (XO (XO (XI (XO (XI
+         XH))))))) :: ((Npos (XO (XI (XI (XI (XO (XI XH))))))) :: ((Npos (XO
+         (XI (XI (XO (XO (XI XH))))))) :: [])))
+  else (Npos (XI (XO (XO (XI (XO (XI XH))))))) :: ((Npos (XO (XI (XI (XI (XO
+         (XI XH))))))) :: ((Npos (XO (XI (XI (XO (XO (XI XH))))))) :: []))
+
+(** val str_join : str -> str list -> str **)
+
+let str_join sep = function
+| [] -> []
+| p :: ps -> app p (flat_map (fun x -> app sep x) ps)
+
+(** val op_str : cmpop -> str **)
+
+let op_str = function
+| OEq ->
+  (Npos (XI (XO (XI (XI (XI XH)))))) :: ((Npos (XI (XO (XI (XI (XI
+    XH)))))) :: [])
+| ONe ->
+  (Npos (XI (XO (XO (XO (XO XH)))))) :: ((Npos (XI (XO (XI (XI (XI
+    XH)))))) :: [])
+| OLt -> (Npos (XO (XO (XI (XI (XI XH)))))) :: []
+| OLe ->
+  (Npos (XO (XO (XI (XI (XI XH)))))) :: ((Npos (XI (XO (XI (XI (XI
+    XH)))))) :: [])
+| OGt -> (Npos (XO (XI (XI (XI (XI XH)))))) :: []
+| OGe ->
+  (Npos (XO (XI (XI (XI (XI XH)))))) :: ((Npos (XI (XO (XI (XI (XI
+    XH)))))) :: [])
+
+(** val lit_str : json -> str **)
+
+let lit_str = function
+| JNull ->
+  (Npos (XO (XI (XI (XI (XO (XI XH))))))) :: ((Npos (XI (XO (XI (XO (XI (XI
+    XH))))))) :: ((Npos (XO (XO (XI (XI (XO (XI XH))))))) :: ((Npos (XO (XO
+    (XI (XI (XO (XI XH))))))) :: [])))
+| JBool b ->
+  if b
+  then (Npos (XO (XO (XI (XO (XI (XI XH))))))) :: ((Npos (XO (XI (XO (XO (XI
+         (XI XH))))))) :: ((Npos (XI (XO (XI (XO (XI (XI XH))))))) :: ((Npos
+         (XI (XO (XI (XO (XO (XI XH))))))) :: [])))
+  else (Npos (XO (XI (XI (XO (XO (XI XH))))))) :: ((Npos (XI (XO (XO (XO (XO
+         (XI XH))))))) :: ((Npos (XO (XO (XI (XI (XO (XI XH))))))) :: ((Npos
+         (XI (XI (XO (XO (XI (XI XH))))))) :: ((Npos (XI (XO (XI (XO (XO (XI
+         XH))))))) :: []))))
+| JNum n0 -> repr_float n0
+| JStr s -> m_canonical_string s
+| _ -> []
+
+(** val opt_int_str : z option -> str -> str **)
+
+let opt_int_str o dflt =
+  match o with
+  | Some i -> repr_int i
+  | None -> dflt
+
+(** val paren : str -> str **)
+
+let paren s =
+  (Npos (XO (XO (XO (XI (XO
+    XH)))))) :: (app s ((Npos (XI (XO (XO (XI (XO XH)))))) :: []))
+
+(** val is_cmp_or_not : expr -> bool **)
+
+let is_cmp_or_not = function
+| ENot _ -> true
+| ECmp (_, _, _) -> true
+| _ -> false
+
+(** val sel_str : sel -> str **)
+
+let rec sel_str = function
+| SName k -> m_canonical_string k
+| SIndex i -> repr_int i
+| SSlice (a, b, c0) ->
+  app (opt_int_str a [])
+    (app ((Npos (XO (XI (XO (XI (XI XH)))))) :: [])
+      (app (opt_int_str b [])
+        (app ((Npos (XO (XI (XO (XI (XI XH)))))) :: [])
+          (opt_int_str c0 ((Npos (XI (XO (XO (XO (XI XH)))))) :: [])))))
+| SWild -> (Npos (XO (XI (XO (XI (XO XH)))))) :: []
+| SFilter e -> (Npos (XI (XI (XI (XI (XI XH)))))) :: (canon_str e (Zpos XH))
+
+(** val expr_str : expr -> str **)
+
+and expr_str = function
+| ELit v -> lit_str v
+| ERel q ->
+  (Npos (XO (XO (XO (XO (XO (XO
+    XH))))))) :: (let rec go = function
+                  | [] -> []
+                  | g :: q' -> app (seg_str g) (go q')
+                  in go q)
+| EAbs q ->
+  (Npos (XO (XO (XI (XO (XO
+    XH)))))) :: (let rec go = function
+                 | [] -> []
+                 | g :: q' -> app (seg_str g) (go q')
+                 in go q)
+| ECall (f, args) ->
+  app f
+    (paren
+      (str_join ((Npos (XO (XO (XI (XI (XO XH)))))) :: ((Npos (XO (XO (XO (XO
+        (XO XH)))))) :: []))
+        (let rec go = function
+         | [] -> []
+         | a :: l' -> (expr_str a) :: (go l')
+         in go args)))
+| ENot a ->
+  if is_cmp_or_not a
+  then (Npos (XI (XO (XO (XO (XO XH)))))) :: (paren (expr_str a))
+  else (Npos (XI (XO (XO (XO (XO XH)))))) :: (expr_str a)
+| EAnd (a, b) ->
+  paren
+    (app (expr_str a)
+      (app ((Npos (XO (XO (XO (XO (XO XH)))))) :: ((Npos (XO (XI (XI (XO (XO
+        XH)))))) :: ((Npos (XO (XI (XI (XO (XO XH)))))) :: ((Npos (XO (XO (XO
+        (XO (XO XH)))))) :: [])))) (expr_str b)))
+| EOr (a, b) ->
+  paren
+    (app (expr_str a)
+      (app ((Npos (XO (XO (XO (XO (XO XH)))))) :: ((Npos (XO (XO (XI (XI (XI
+        (XI XH))))))) :: ((Npos (XO (XO (XI (XI (XI (XI XH))))))) :: ((Npos
+        (XO (XO (XO (XO (XO XH)))))) :: [])))) (expr_str b)))
+| ECmp (o, a, b) ->
+  app (expr_str a)
+    (app ((Npos (XO (XO (XO (XO (XO XH)))))) :: [])
+      (app (op_str o)
+        (app ((Npos (XO (XO (XO (XO (XO XH)))))) :: []) (expr_str b))))
+
+(** val canon_str : expr -> z -> str **)
+
+and canon_str e parent =
+  match e with
+  | ELit v -> lit_str v
+  | ERel q ->
+    (Npos (XO (XO (XO (XO (XO (XO
+      XH))))))) :: (let rec go = function
+                    | [] -> []
+                    | g :: q' -> app (seg_str g) (go q')
+                    in go q)
+  | EAbs q ->
+    (Npos (XO (XO (XI (XO (XO
+      XH)))))) :: (let rec go = function
+                   | [] -> []
+                   | g :: q' -> app (seg_str g) (go q')
+                   in go q)
+  | ECall (f, args) ->
+    app f
+      (paren
+        (str_join ((Npos (XO (XO (XI (XI (XO XH)))))) :: ((Npos (XO (XO (XO
+          (XO (XO XH)))))) :: []))
+          (let rec go = function
+           | [] -> []
+           | a :: l' -> (expr_str a) :: (go l')
+           in go args)))
+  | ENot a ->
+    let t = (Npos (XI (XO (XO (XO (XO
+      XH)))))) :: (canon_str a (Zpos (XI (XI XH))))
+    in
+    if Z.leb (Zpos (XI (XI XH))) parent then paren t else t
+  | EAnd (a, b) ->
+    let t =
+      app (canon_str a (Zpos (XO (XO XH))))
+        (app ((Npos (XO (XO (XO (XO (XO XH)))))) :: ((Npos (XO (XI (XI (XO
+          (XO XH)))))) :: ((Npos (XO (XI (XI (XO (XO XH)))))) :: ((Npos (XO
+          (XO (XO (XO (XO XH)))))) :: []))))
+          (canon_str b (Zpos (XO (XO XH)))))
+    in
+    if Z.leb (Zpos (XO (XO XH))) parent then paren t else t
+  | EOr (a, b) ->
+    let t =
+      app (canon_str a (Zpos (XI XH)))
+        (app ((Npos (XO (XO (XO (XO (XO XH)))))) :: ((Npos (XO (XO (XI (XI
+          (XI (XI XH))))))) :: ((Npos (XO (XO (XI (XI (XI (XI
+          XH))))))) :: ((Npos (XO (XO (XO (XO (XO XH)))))) :: []))))
+          (canon_str b (Zpos (XI XH))))
+    in
+    if Z.leb (Zpos (XI XH)) parent then paren t else t
+  | ECmp (o, a, b) ->
+    let t =
+      app (expr_str a)
+        (app ((Npos (XO (XO (XO (XO (XO XH)))))) :: [])
+          (app (op_str o)
+            (app ((Npos (XO (XO (XO (XO (XO XH)))))) :: []) (expr_str b))))
+    in
+    if Z.leb (Zpos (XI (XI XH))) parent then paren t else t
+
+(** val seg_str : seg -> str **)
+
+and seg_str = function
+| Child ss ->
+  (Npos (XI (XI (XO (XI (XI (XO
+    XH))))))) :: (app
+                   (str_join ((Npos (XO (XO (XI (XI (XO XH)))))) :: ((Npos
+                     (XO (XO (XO (XO (XO XH)))))) :: []))
+                     (let rec go = function
+                      | [] -> []
+                      | s :: l' -> (sel_str s) :: (go l')
+                      in go ss)) ((Npos (XI (XO (XI (XI (XI (XO
+                   XH))))))) :: []))
+| Desc ss ->
+  app ((Npos (XO (XI (XI (XI (XO XH)))))) :: ((Npos (XO (XI (XI (XI (XO
+    XH)))))) :: ((Npos (XI (XI (XO (XI (XI (XO XH))))))) :: [])))
+    (app
+      (str_join ((Npos (XO (XO (XI (XI (XO XH)))))) :: ((Npos (XO (XO (XO (XO
+        (XO XH)))))) :: []))
+        (let rec go = function
+         | [] -> []
+         | s :: l' -> (sel_str s) :: (go l')
+         in go ss)) ((Npos (XI (XO (XI (XI (XI (XO XH))))))) :: []))
+
+(** val m_str : query -> str **)
+
+let m_str q =
+  (Npos (XO (XO (XI (XO (XO XH)))))) :: (flat_map seg_str q)
+
+(** val key_str : key -> str **)
+
+let key_str = function
+| KName s ->
+  (Npos (XI (XI (XO (XI (XI (XO
+    XH))))))) :: (app (m_canonical_string s) ((Npos (XI (XO (XI (XI (XI (XO
+                   XH))))))) :: []))
+| KIdx i ->
+  (Npos (XI (XI (XO (XI (XI (XO
+    XH))))))) :: (app (repr_int i) ((Npos (XI (XO (XI (XI (XI (XO
+                   XH))))))) :: []))
+
+(** val m_path : key list -> str **)
+
+let m_path loc =
+  (Npos (XO (XO (XI (XO (XO XH)))))) :: (flat_map key_str loc)
+
+(** val hexl : z -> n **)
+
+let hexl d =
+  if Z.ltb d (Zpos (XO (XI (XO XH))))
+  then Z.to_N (Z.add (Zpos (XO (XO (XO (XO (XI XH)))))) d)
+  else Z.to_N (Z.add (Zpos (XI (XI (XI (XO (XI (XO XH))))))) d)
+
+(** val norm_char : n -> str **)
+
+let norm_char c0 =
+  if N.eqb c0 (Npos (XO (XO (XO XH))))
+  then (Npos (XO (XO (XI (XI (XI (XO XH))))))) :: ((Npos (XO (XI (XO (XO (XO
+         (XI XH))))))) :: [])
+  else if N.eqb c0 (Npos (XO (XO (XI XH))))
+       then (Npos (XO (XO (XI (XI (XI (XO XH))))))) :: ((Npos (XO (XI (XI (XO
+              (XO (XI XH))))))) :: [])
+       else if N.eqb c0 (Npos (XO (XI (XO XH))))
+            then (Npos (XO (XO (XI (XI (XI (XO XH))))))) :: ((Npos (XO (XI
+                   (XI (XI (XO (XI XH))))))) :: [])
+            else if N.eqb c0 (Npos (XI (XO (XI XH))))
+                 then (Npos (XO (XO (XI (XI (XI (XO XH))))))) :: ((Npos (XO
+                        (XI (XO (XO (XI (XI XH))))))) :: [])
+                 else if N.eqb c0 (Npos (XI (XO (XO XH))))
+                      then (Npos (XO (XO (XI (XI (XI (XO XH))))))) :: ((Npos
+                             (XO (XO (XI (XO (XI (XI XH))))))) :: [])
+                      else if N.eqb c0 (Npos (XI (XI (XI (XO (XO XH))))))
+                           then (Npos (XO (XO (XI (XI (XI (XO
+                                  XH))))))) :: ((Npos (XI (XI (XI (XO (XO
+                                  XH)))))) :: [])
+                           else if N.eqb c0 (Npos (XO (XO (XI (XI (XI (XO
+                                     XH)))))))
+                                then (Npos (XO (XO (XI (XI (XI (XO
+                                       XH))))))) :: ((Npos (XO (XO (XI (XI
+                                       (XI (XO XH))))))) :: [])
+                                else if N.ltb c0 (Npos (XO (XO (XO (XO (XO
+                                          XH))))))
+                                     then (Npos (XO (XO (XI (XI (XI (XO
+                                            XH))))))) :: ((Npos (XI (XO (XI
+                                            (XO (XI (XI XH))))))) :: ((Npos
+                                            (XO (XO (XO (XO (XI
+                                            XH)))))) :: ((Npos (XO (XO (XO
+                                            (XO (XI
+                                            XH)))))) :: ((hexl
+                                                           (Z.div (Z.of_N c0)
+                                                             (Zpos (XO (XO
+                                                             (XO (XO XH))))))) :: (
+                                            (hexl
+                                              (Z.modulo (Z.of_N c0) (Zpos (XO
+                                                (XO (XO (XO XH))))))) :: [])))))
+                                     else c0 :: []
+
+(** val norm_name : str -> str **)
+
+let norm_name s =
+  (Npos (XI (XI (XI (XO (XO
+    XH)))))) :: (app (flat_map norm_char s) ((Npos (XI (XI (XI (XO (XO
+                  XH)))))) :: []))
+
+(** val dec_digits : nat -> z -> str -> str **)
+
+let rec dec_digits fuel n0 acc =
+  match fuel with
+  | O -> acc
+  | S f ->
+    if Z.ltb n0 (Zpos (XO (XI (XO XH))))
+    then (Z.to_N (Z.add (Zpos (XO (XO (XO (XO (XI XH)))))) n0)) :: acc
+    else dec_digits f (Z.div n0 (Zpos (XO (XI (XO XH)))))
+           ((Z.to_N
+              (Z.add (Zpos (XO (XO (XO (XO (XI XH))))))
+                (Z.modulo n0 (Zpos (XO (XI (XO XH))))))) :: acc)
+
+(** val norm_index : z -> str **)
+
+let norm_index i =
+  dec_digits (S (Z.to_nat (Z.log2 i))) i []
+
+(** val norm_seg : key -> str **)
+
+let norm_seg = function
+| KName s ->
+  (Npos (XI (XI (XO (XI (XI (XO
+    XH))))))) :: (app (norm_name s) ((Npos (XI (XO (XI (XI (XI (XO
+                   XH))))))) :: []))
+| KIdx i ->
+  (Npos (XI (XI (XO (XI (XI (XO
+    XH))))))) :: (app (norm_index i) ((Npos (XI (XO (XI (XI (XI (XO
+                   XH))))))) :: []))
+
+(** val norm_path : key list -> str **)
+
+let norm_path loc =
+  (Npos (XO (XO (XI (XO (XO XH)))))) :: (flat_map norm_seg loc)
+
 (** val iota_json : z -> json list **)
 
 let iota_json len =
@@ -6623,6 +7306,86 @@ let op_env_find r0 =
      | None -> bad_request)
   | None -> bad_request
 
+(** val op_str_query : z list -> z list **)
+
+let op_str_query r0 =
+  match dec_registry r0 with
+  | Some p ->
+    let (rg, r1) = p in
+    (match dec_str r1 with
+     | Some p0 ->
+       let (q, _) = p0 in
+       enc_result enc_str
+         (bind
+           (m_compile
+             (mk_cfg (S (S (S (S (S (S (S (S (S (S (S (S (S (S (S (S (S (S (S
+               (S (S (S (S (S (S (S (S (S (S (S (S (S (S (S (S (S (S (S (S (S
+               (S (S (S (S (S (S (S (S (S (S (S (S (S (S (S (S (S (S (S (S (S
+               (S (S (S (S (S (S (S (S (S (S (S (S (S (S (S (S (S (S (S (S (S
+               (S (S (S (S (S (S (S (S (S (S (S (S (S (S (S (S (S (S
+               O))))))))))))))))))))))))))))))))))))))))))))))))))))))))))))))))))))))))))))))))))))))))))))))))))))
+               rg []) q) (fun c0 -> Ok (m_str c0)))
+     | None -> bad_request)
+  | None -> bad_request
+
+(** val op_path : z list -> z list **)
+
+let op_path r0 =
+  match dec_list dec_key r0 with
+  | Some p -> let (loc, _) = p in enc_str (m_path loc)
+  | None -> bad_request
+
+(** val dec_num : num dec **)
+
+let dec_num = function
+| [] -> None
+| z0 :: r0 ->
+  (match z0 with
+   | Zpos p ->
+     (match p with
+      | XI p0 ->
+        (match p0 with
+         | XI _ -> None
+         | XO p1 ->
+           (match p1 with
+            | XH ->
+              (match r0 with
+               | [] -> None
+               | b :: r1 -> Some ((NInf (negb (Z.eqb b Z0))), r1))
+            | _ -> None)
+         | XH ->
+           (match r0 with
+            | [] -> None
+            | m :: l0 ->
+              (match l0 with
+               | [] -> None
+               | e :: r1 -> Some ((NFlt (m, e)), r1))))
+      | XO p0 ->
+        (match p0 with
+         | XI _ -> None
+         | XO p1 -> (match p1 with
+                     | XH -> Some (NNegZero, r0)
+                     | _ -> None)
+         | XH -> (match r0 with
+                  | [] -> None
+                  | z1 :: r1 -> Some ((NInt z1), r1)))
+      | XH -> None)
+   | _ -> None)
+
+(** val op_repr : z list -> z list **)
+
+let op_repr r0 =
+  match dec_num r0 with
+  | Some p -> let (n0, _) = p in enc_str (repr_float n0)
+  | None -> bad_request
+
+(** val op_norm_path : z list -> z list **)
+
+let op_norm_path r0 =
+  match dec_list dec_key r0 with
+  | Some p -> let (loc, _) = p in enc_str (norm_path loc)
+  | None -> bad_request
+
 (** val dispatch : z list -> z list **)
 
 let dispatch = function
@@ -6720,8 +7483,12 @@ let dispatch = function
                         | _ -> bad_request)
                      | _ -> bad_request)
                   | _ -> bad_request)
-               | _ -> bad_request)
-            | _ -> bad_request)
+               | XO p3 -> (match p3 with
+                           | XH -> op_repr r0
+                           | _ -> bad_request)
+               | XH -> bad_request)
+            | XO _ -> bad_request
+            | XH -> op_str_query r0)
          | XH -> op_find r0)
       | XO p0 ->
         (match p0 with
@@ -6739,7 +7506,17 @@ let dispatch = function
                         | _ -> bad_request)
                      | _ -> bad_request)
                   | _ -> bad_request)
-               | _ -> bad_request)
+               | XO p3 ->
+                 (match p3 with
+                  | XI p4 ->
+                    (match p4 with
+                     | XI p5 ->
+                       (match p5 with
+                        | XH -> op_norm_path r0
+                        | _ -> bad_request)
+                     | _ -> bad_request)
+                  | _ -> bad_request)
+               | XH -> bad_request)
             | XO p2 ->
               (match p2 with
                | XI p3 ->
@@ -6753,7 +7530,7 @@ let dispatch = function
                      | _ -> bad_request)
                   | _ -> bad_request)
                | _ -> bad_request)
-            | XH -> bad_request)
+            | XH -> op_path r0)
          | XO p1 ->
            (match p1 with
             | XI p2 ->
